@@ -1699,6 +1699,11 @@ class Pool:
     @staticmethod
     def _help_stuff_finish(inqueue, task_handler, _pool):
         # task_handler may be blocked trying to put items on inqueue
+        if not task_handler.is_alive():
+            # no feeder thread to unblock (threads=False, or it already
+            # ended); an idle worker holds the read lock while it waits
+            # for a task, so taking it here would block for ever.
+            return
         debug('removing tasks from inqueue until task handler finished')
         inqueue._rlock.acquire()
         while task_handler.is_alive() and inqueue._reader.poll():
